@@ -30,7 +30,8 @@ Definition corr_lcase (x : lcase) : bool :=
   obs_eqb (loop_run (lc_app x) (lc_interval x) sched0 (lc_script x)) (lc_obs x).
 
 (** oracle on the observed trace alone: while paused (between an accepted 'pause' and
-    the next accepted 'resume') no poll happens unless an 'update' was accepted; never
+    the next accepted 'resume') no poll happens unless an 'update' was accepted; an accepted
+    'update' (also one received while a poll is running) makes the next iteration poll; never
     more than two polls in a row without a forced update *)
 Definition is_pollb (a : loopact) : bool := match a with LPoll | LIsyncPoll => true | _ => false end.
 Fixpoint o20 (script : list (list (list nat))) (obs : list (loopact * list Z))
@@ -39,6 +40,7 @@ Fixpoint o20 (script : list (list (list nat))) (obs : list (loopact * list Z))
   | cmds :: rs, (act, rcs) :: ro =>
       let polled := is_pollb act in
       let ok_pause := negb (paused && polled && negb forced) in
+      let ok_forced := negb forced || polled in     (* an accepted 'update' is honoured at the next iteration *)
       let run' := if polled then (if forced then 0%nat else S run) else 0%nat in
       let ok_burst := Nat.leb run' 2 in
       let fix upd (cmds : list (list nat)) (rcs : list Z) (p f : bool) : bool * bool :=
@@ -53,7 +55,7 @@ Fixpoint o20 (script : list (list (list nat))) (obs : list (loopact * list Z))
         | _, _ => (p, f)
         end in
       let '(p2, f2) := upd cmds rcs paused (if polled then false else forced) in
-      ok_pause && ok_burst && o20 rs ro p2 f2 run'
+      ok_pause && ok_forced && ok_burst && o20 rs ro p2 f2 run'
   | _, _ => true
   end.
 Definition c20_lcase (x : lcase) : bool :=
